@@ -26,7 +26,7 @@ RULE = (
     "and pair in the exhaustive part, random larger subsets in the Hypothesis part; recursive flag; normal/full emitter; "
     "history of 1-6 single ops with emphasis on boundary moves and on directories that arrive after the start; symbolic "
     "links to outside directories in the root, in a directory renamed later and in a tree moved in, with file and "
-    "directory activity in the link targets in every window).  "
+    "directory activity in the link targets in every window, follow_symlink on or off for both watches).  "
     "non-trivial = a window contains a boundary move or an op inside a directory that arrived after the start, and the "
     "filter is not FileSystemEvent (total); distinct = digest of the case"
 )
@@ -71,25 +71,32 @@ def run_case(case):
     try:
         rec = bool(cfg.get("recursive", True))
         frec = fsops.Recorder()
-        s.obs.schedule(frec.make_handler(), s.given, recursive=rec, event_filter=list(classes))
+        s.obs.schedule(frec.make_handler(), s.given, recursive=rec, event_filter=list(classes), **({"follow_symlink": True} if cfg.get("follow_symlink") else {}))
         upos = fpos = 0
         nwin = 0
         info = {"windows": 0}
         ops = [op for b in case["bursts"] for op in b if op[0] != "sleep"]
         link_slots = sorted({slot for _, slot in cfg.get("links", [])})
+        waiting = {}  # out slot that will be moved in -> targets of the links inside it
         for rel, slot in case.get("slot_links", []):
-            # a link inside a pre-built tree that will be moved in later
+            # a link inside a pre-built tree that will be moved in later; its target sees activity only from the window
+            # after the one in which the tree arrived (pacing: the watches of an arriving tree are set up first)
             os.makedirs(os.path.join(s.out, slot), exist_ok=True)
             os.symlink(os.path.join(s.out, slot), os.path.join(s.out, rel))
-            link_slots = sorted(set(link_slots) | {slot})
+            waiting.setdefault(rel.split("/")[0], []).append(slot)
+        arm_next = []
         for wi, op in enumerate(ops + [None]):
+            link_slots = sorted(set(link_slots) | set(arm_next))
+            arm_next = []
             if op is not None:
                 s.run_burst([op])
+                if op[0] == "move_in" and op[1] in waiting:
+                    arm_next = waiting.pop(op[1])
             for slot in link_slots:
                 # activity in the targets of the links: outside the tree, a watch that does not follow links sees none of it
                 fsops._touch(os.path.join(s.out, slot, f"t{wi}"))
                 os.mkdir(os.path.join(s.out, slot, f"u{wi}"))
-                if wi:
+                if os.path.exists(os.path.join(s.out, slot, f"t{wi - 1}")):
                     os.unlink(os.path.join(s.out, slot, f"t{wi - 1}"))
             sops, sg = sentinel_ops(wi)
             for sop in sops:
@@ -208,6 +215,8 @@ def classes_of(case):
     cl.add("full" if case["cfg"].get("full") else "normal")
     if case["cfg"].get("links"):
         cl.add("symlinked-directory-at-start")
+    if case["cfg"].get("follow_symlink"):
+        cl.add("follow_symlink")
     if case.get("slot_links"):
         cl.add("symlinked-directory-moved-in")
     return nt, sorted(cl)
@@ -238,6 +247,7 @@ def cases(draw, tier):
     cfg = {"recursive": draw(st.sampled_from([True, True, False])), "full": draw(st.sampled_from([False, False, True]))}
     if draw(st.booleans()):
         cfg["links"] = [["L0", "lt0"]]
+        cfg["follow_symlink"] = draw(st.booleans())  # both watches follow the links (or both do not)
     flt = draw(st.lists(st.sampled_from(CONCRETE + BASES), min_size=1, max_size=5, unique=True))
     opts = {"max_bursts": 5, "max_ops": 1, "sleeps": False, "makedirs": False, "weights": {"mkdir": 6, "move_in": 8, "move_out": 6, "create": 5, "write": 3, "rename": 6, "read": 1, "chmod": 2}}
     h = draw(fsops.histories(opts))
@@ -268,7 +278,7 @@ def run_shard(spec):
                     if tier == "quick" and len(flt) == 2 and (k // NSH) % 4 != seed % 4:
                         st_.exhaustive = False
                         continue
-                    case = {"cfg": {"recursive": rec, "full": full, "links": FIXED["links"]}, "filter": flt, "init": FIXED["init"], "bursts": FIXED["bursts"], "slot_links": FIXED["slot_links"]}
+                    case = {"cfg": {"recursive": rec, "full": full, "links": FIXED["links"], "follow_symlink": k % 3 == 0}, "filter": flt, "init": FIXED["init"], "bursts": FIXED["bursts"], "slot_links": FIXED["slot_links"]}
                     n += 1
                     try:
                         info = run_case(case)
